@@ -23,7 +23,9 @@ THE PROPERTY (this text is all you get about what is being checked):
 YOUR TASK: design ONE realistic change to lnd's NON-TEST source that BREAKS this property, such that
   (a) the tree still compiles (`go build ./...` at least for every package you touch and their importers you can afford);
   (b) the EXISTING unit tests of the touched package(s) still pass exactly as they do on the unmodified tree (some tests
-      fail on the unmodified tree already — establish the baseline first with `git stash` / a clean run, and compare);
+      fail on the unmodified tree already — establish the baseline first on the clean tree and compare. NEVER use `git stash`
+      (the stash is shared with other worktrees): to get a clean tree use `git diff > /var/tmp/<yourdir>.patch; git checkout -- .`
+      and re-apply with `git apply`);
   (c) the breakage needs something SPECIFIC to manifest — a particular interleaving, a crash or fault at a particular
       point, a multi-step sequence of operations, an unusual-but-legal input (boundary value, rare combination), or two
       cooperating sites that each look fine alone — NOT something ordinary use or a smoke test would expose at once.
